@@ -748,6 +748,7 @@ def r96(ctx):
 
 def run(ctx):
     ctx.rule("R-9.6", "a wire-fencing extension whose success flag is discarded is covered by a length test that rejects every truncated extension (linear arithmetic on lengths)", floor=1)
+    ctx.rule("R-9.7", "positional role agreement in the move functions: (start, end, middle, cross), (success, status), (shooting_point, idx, dek), (n_frames, new_segment), (accept, paths, status) are unpacked / passed at the callee's positions", floor=20)
     ctx.rule("R-9.1", "every return of a move function pairs flag True with status 'ACC' and flag False with a non-'ACC' status", floor=30)
     ctx.rule("R-9.2", "the job's path is replaced only under status == 'ACC'; treat_output numbers only new paths", floor=4)
     ctx.rule("R-9.3", "frames reach engine sinks only as fresh copies; input paths are never extended in place", floor=13)
@@ -760,9 +761,14 @@ def run(ctx):
     ctx.attempt(r94, ctx)
     ctx.attempt(r95, ctx)
     ctx.attempt(r96, ctx)
+    from .shared import role_agreement
+    ctx.attempt(role_agreement, ctx, "R-9.7", [TIS, PATH], None, " (the move would test / return the wrong component)")
 
 
 VARIANTS = [
+    B("c09-wf-start-end-permuted", TIS, "        start, end, _, _ = trial_seg.check_interfaces(wf_int)", "        end, start, _, _ = trial_seg.check_interfaces(wf_int)", "R-9.7", control=True),
+    B("c09-shoot-unpack-permuted", TIS, "        shooting_point, idx, dek = prepare_shooting_point(", "        shooting_point, dek, idx = prepare_shooting_point(", "R-9.7"),
+    K("c09-keep-unpack-renamed", TIS, "        start, end, _, _ = trial_seg.check_interfaces(wf_int)", "        start, end, _mid, _cr = trial_seg.check_interfaces(wf_int)"),
     B("c09-true-with-ftx", TIS, '        if trial_path.length == ens_set["tis_set"]["maxlength"]:\n            trial_path.status = "FTX"  # exceeds "memory".\n        return False, trial_path, trial_path.status', '        if trial_path.length == ens_set["tis_set"]["maxlength"]:\n            trial_path.status = "FTX"  # exceeds "memory".\n        return True, trial_path, trial_path.status', "R-9.1", control=True),
     B("c09-acc-before-later-rejection", TIS, '    trial_path.weight = 1.0\n\n    # Deal with the rejections for path properties.', '    trial_path.weight = 1.0\n    trial_path.status = "ACC"\n    # Deal with the rejections for path properties.', "R-9.1",
       also=[(TIS, '        # No, we did not cross the middle interface:\n        trial_path.status = "NCR"\n        return False, trial_path, trial_path.status', '        # No, we did not cross the middle interface:\n        return False, trial_path, trial_path.status')]),
